@@ -43,7 +43,7 @@ CHECKS.update({
    note=CODEC_NOTE + " wow_srp's header cipher is trusted as the definition of the encryption."),
  "C06": dict(engine="codec_harness", category="exploration", design="DESIGN.md §2 C06",
    technique="schedule-owning harness: scripted AsyncRead/AsyncWrite with chosen chunking and Pending counts, hand-rolled poll loop; exhaustive chunk compositions for short frames, proptest schedules beyond; differential against the blocking reader",
-   text="Every login message (all protocol versions) and a spread of world messages are read by the tokio and async-std functions from a transport whose chunking and Pending pattern the harness chooses: all 2^(n-1) compositions for frames up to 12 bytes with 0/1 Pending per chunk, and single-byte, halved, field-splitting and proptest-drawn schedules for longer ones, on canonical and malformed inputs; results must equal the blocking reader's (value and consumption, or error kind), and the three writers must emit identical bytes through a sink accepting partial writes.",
+   text="Every login message (all protocol versions) and a spread of world messages are read by the tokio and async-std functions from a transport whose chunking and Pending pattern the harness chooses: all 2^(n-1) compositions for frames up to 12 bytes with 0/1 Pending per chunk, and single-byte, halved, field-splitting and proptest-drawn schedules for longer ones, on canonical and malformed inputs; the protocol-parameterised expect_*_message_protocol readers of the 15 collective families are driven the same way; results must equal the blocking reader's (value and consumption, or error kind), and the three writers must emit identical bytes through a sink accepting partial writes.",
    note=CODEC_NOTE + " Deterministic: no runtime, no timers. Real multi-threaded executors are out of scope of the property."),
  "C14": dict(engine="codec_harness", category="exploration", design="DESIGN.md §2 C14",
    technique="PBT with round-trip (lift/lower) and differential (protocol-parameterised API vs the version's own codec) oracles over model-generated encodings and their corruptions",
@@ -63,7 +63,7 @@ CHECKS.update({
    note=TYPED_NOTE + " The 35 message-local flag structs are checked for the integer their 677 typed constructors produce, not for the full algebra."),
  "C13": dict(engine="typed_harness", category="exploration", design="DESIGN.md §2 C13",
    technique="model-based stateful PBT: exhaustive short and proptest-generated long histories of typed setter/getter/dirty operations on every update-mask kind against a sparse map model; wire image decoded by the independent wowm model; offsets from the published field table",
-   text="Every generated accessor (1221 plain, 441 indexed slots, 21 kinds x 3 expansions) is set, read back and located on the wire at the offset the published update-mask table gives; histories of set / overwrite / header-dirty / serialise / re-read operations are run against a map model after each step, exhaustively to depth 4 on a reduced alphabet and by proptest beyond.",
+   text="Every generated accessor (1221 plain, 441 indexed slots, 21 kinds x 3 expansions) is set, read back and located on the wire at the offset the published update-mask table gives; the indexed SkillInfo / VisibleItem accessors are set with values whose members are pairwise distinct and the written words must be the byte layout of the wowm struct of that name and version; accessor instances (plain, indexed slot, inventory slot) whose words overlap partially must not disturb each other's getter; histories of set / overwrite / header-dirty / serialise / re-read operations are run against a map model after each step, exhaustively to depth 4 on a reduced alphabet and by proptest beyond.",
    note=TYPED_NOTE + " The half-word order inside two-u16 fields is not prescribed by the table and either packing is accepted."),
 })
 
